@@ -344,20 +344,8 @@ def rule_r3(chk, m):
     chk.saw(m, "Period.shift")
     want = {"yoy": "self - self.frequency.value", "boy": "self.create_soy()", "soy": "self.create_soy()",
             "eopy": "self.create_eopy()", "tty": "self.create_tty()", "_": "self + by"}
-    got = {}
-    for n in ast.walk(f):
-        if isinstance(n, ast.match_case):
-            keys = []
-            p = n.pattern
-            pats = p.patterns if isinstance(p, ast.MatchOr) else [p]
-            for q in pats:
-                if isinstance(q, ast.MatchValue):
-                    keys.append(literal(q.value))
-                elif isinstance(q, ast.MatchAs) and q.pattern is None:
-                    keys.append("_")
-            r = n.body[0]
-            for k in keys:
-                got[k] = unparse(r.value) if isinstance(r, ast.Return) else "?"
+    from .c13 import _case_returns
+    got = {k_: unparse(v_) for k_, v_ in _case_returns(f).items()}
     for k, w in want.items():
         chk.ob("C09-R3", f"dates.Period.shift[{k}]", got.get(k) == w, f"case {k!r}: returns {got.get(k)} (documented: {w})", m.loc(f))
     daily_keyword_periods(chk, "C09-R3", m)
